@@ -73,6 +73,82 @@ def register_contracts(I):
             raise VCError(f"contract for unknown function {q} (renamed or removed in the repository?)")
 
 
+def _global_roots(I):
+    """(namespace dict, dotted prefix) of every repository module and of the classes defined in it"""
+    from pyvc.objects import ClassV
+    from pyvc.values import deref
+
+    out = []
+    for mname, mod in list(I.world.modules.items()):
+        if not str(mname).startswith("someip"):
+            continue
+        out.append((mod.ns, str(mname)))
+        todo = [(mod.ns, str(mname))]
+        while todo:
+            ns, prefix = todo.pop()
+            for k, v in list(ns.items()):
+                v = deref(v)
+                if isinstance(v, ClassV) and getattr(v, "module", None) is mod and not v.builtin and not any(v.ns is o[0] for o in out):
+                    out.append((v.ns, prefix + "." + str(k)))
+                    todo.append((v.ns, prefix + "." + str(k)))
+    return out
+
+
+def global_snapshot(I):
+    from pyvc.loopcut import _shallow
+    from pyvc.values import BytearrayV, DictV, ListV, SetV, deref
+
+    snap = []
+    for ns, prefix in _global_roots(I):
+        names = {}
+        for k, v in ns.items():
+            v0 = deref(v)
+            names[k] = id(v0)
+            if isinstance(v0, DictV):
+                snap.append(("c", prefix + "." + str(k), v0, _shallow(I, v0), [list(p_) for p_ in v0.pairs]))
+            elif isinstance(v0, ListV):
+                snap.append(("c", prefix + "." + str(k), v0, _shallow(I, v0), list(v0.items)))
+            elif isinstance(v0, SetV) and not v0.frozen:
+                snap.append(("c", prefix + "." + str(k), v0, _shallow(I, v0), list(v0.items)))
+            elif isinstance(v0, BytearrayV):
+                snap.append(("c", prefix + "." + str(k), v0, _shallow(I, v0), v0.rope))
+        snap.append(("n", prefix, ns, names, dict(ns)))
+    return snap
+
+
+def global_restore(I, snap):
+    """paths of the global state that changed since the snapshot; the state is put back"""
+    from pyvc.loopcut import _shallow
+    from pyvc.values import BytearrayV, DictV, ListV, deref
+
+    changed = []
+    for rec in snap:
+        if rec[0] == "c":
+            _, path, obj, sh, saved = rec
+            try:
+                same = _shallow(I, obj) == sh
+            except Exception:  # noqa: BLE001
+                same = False
+            if not same:
+                changed.append(path)
+                if isinstance(obj, DictV):
+                    obj.pairs[:] = [list(p_) for p_ in saved]
+                elif isinstance(obj, BytearrayV):
+                    obj.rope = saved
+                else:
+                    obj.items[:] = saved
+        else:
+            _, prefix, ns, names, saved = rec
+            now = {k: id(deref(v)) for k, v in ns.items()}
+            if now != names:
+                for k in set(now) | set(names):
+                    if now.get(k) != names.get(k):
+                        changed.append(prefix + "." + str(k))
+                ns.clear()
+                ns.update(saved)
+    return sorted(set(changed))
+
+
 def run_harness(job):
     propmod, modname, fname, opts = job[:4]
     initial = job[4] if len(job) > 4 else None
@@ -90,6 +166,21 @@ def run_harness(job):
 
         def run_path(ctx):
             I.begin_path(ctx)
+            gsnap = global_snapshot(I)
+            try:
+                _run_path(ctx)
+            finally:
+                # global frame: module-level and class-level mutable state of the repository
+                # (caches, registries) is as it was when the modules were loaded.  Every
+                # contract is verified from that state, which is only sound if no operation
+                # changes it; a change is not a refutation of anything -- the single-call
+                # contracts no longer describe the code (undecided; the native twins, which
+                # include call histories, look for a failing input).  The state is put back
+                # so that the next path starts from the load-time state again.
+                for gpath in global_restore(I, gsnap):
+                    ctx.undecided(f"global_state.frame[{gpath}]", "", f"the code under verification changes {gpath}, state that outlives the call: contracts verified per call from the load-time state do not cover later calls")
+
+        def _run_path(ctx):
             try:
                 I.call(fn, [I.ghost.vc], {}, None)
             except RaiseSig as r:
